@@ -133,3 +133,16 @@ Theorem C04_array_err :
        lift2 f ys zs = ValueErr <-> Exists (fun yz : R * R => f (fst yz) (snd yz) = ValueErr) (combine ys zs).
 Proof. exact lift2_err. Qed.
 Print Assumptions C04_array_err.
+
+(* non-vacuity: admissible pairs exist in every degree range, are accepted with a non-negative score, and
+   inadmissible ones are rejected *)
+From MD Require Import proofs.Examples.
+Theorem C04_example_domain : hes_dom 1 0 3 /\ hes_dom 0 2 3 /\ hes_dom 2 (-1) (-3).
+Proof. exact ex_hes_dom. Qed.
+Print Assumptions C04_example_domain.
+Theorem C04_example_accepts : exists s, gen_PoissonDeviance_spo 0 3 = Ok s /\ 0 <= s.
+Proof. exact ex_poisson_accepts. Qed.
+Print Assumptions C04_example_accepts.
+Theorem C04_example_rejects : gen_PoissonDeviance_spo 1 0 = ValueErr.
+Proof. exact ex_poisson_rejects. Qed.
+Print Assumptions C04_example_rejects.
